@@ -174,21 +174,45 @@ pub fn run_scenario(s: &Scenario) -> CaseResult {
             drop(rx);
         }
         Scenario::Errors { track, objects, cleanup_each } => {
-            let spec = RxSpec { max_objects_error: *track, cleanup_each_push: *cleanup_each, ..RxSpec::default_once() };
+            let spec = RxSpec { max_objects_error: *track, cleanup_each_push: *cleanup_each, md5_check: true, ..RxSpec::default_once() };
             let mut rx = Rx::new(&spec, Faults::none());
             let body = vec![0x55u8; 16];
-            let mut maxseen = 0;
+            // the FDT announces every object (2 symbols of 16 bytes); odd ones with a Content-MD5 that cannot match
+            let mut fdt = ForeignFdt::new(4_000_000_000);
             for i in 0..*objects {
-                // a two-symbol object whose first packet already carries the close-object flag
-                let p = pkt(3, 100 + i as u128, vec![nocode_fti(32, 16, 4)], 0, 0, &body, true);
-                rx.push(&p, now(i as u64));
+                let mut f = ForeignFile::new(100 + i as u128, &format!("file:///err/{}", i)).with("Content-Length", 32u64).with("Transfer-Length", 32u64);
+                if i % 2 == 1 {
+                    f = f.with("Content-MD5", "AAAAAAAAAAAAAAAAAAAAAA==");
+                }
+                fdt = fdt.file(f);
+            }
+            let xml = fdt.to_xml().into_bytes();
+            rx.push(&fdt_pkt(3, 1, &xml, 0, 0, 60000, xml.len() as u64), now(0));
+            let mut maxseen = 0;
+            let mut failed_writers = 0usize;
+            for i in 0..*objects {
+                let toi = 100 + i as u128;
+                if i % 2 == 0 {
+                    // the only packet received carries the close-object flag: the object ends interrupted
+                    rx.push(&pkt(3, toi, vec![nocode_fti(32, 16, 4)], 0, 1, &body, true), now(1 + i as u64));
+                } else {
+                    // both symbols arrive, the digest does not match: the object ends in error
+                    rx.push(&pkt(3, toi, vec![nocode_fti(32, 16, 4)], 0, 0, &body, false), now(1 + i as u64));
+                    rx.push(&pkt(3, toi, vec![nocode_fti(32, 16, 4)], 0, 1, &body, true), now(1 + i as u64));
+                }
                 let e = rx.mr.nb_objects_error();
                 maxseen = maxseen.max(e);
                 if e > *track {
-                    return Err(format!("after object {} failed: nb_objects_error() = {} > max_objects_error = {}", i, e, track));
+                    return Err(format!("after object {} of {} failed ({}): nb_objects_error() = {} > max_objects_error = {}", i + 1, objects, if i % 2 == 0 { "interrupted by the close-object flag" } else { "MD5 mismatch" }, e, track));
                 }
+                failed_writers = rx.mon.writers().iter().filter(|w| w.failed()).count();
+            }
+            // the scenario must really have produced failed objects (otherwise it shows nothing)
+            if failed_writers != *objects as usize {
+                return Err(format!("HARNESS: the error scenario produced {} failed writers for {} objects", failed_writers, objects));
             }
             info.nt(*objects as usize > *track);
+            info.label(format!("failed objects {} vs max_objects_error {}", if *objects as usize > *track { "exceed" } else { "within" }, track));
             info.label(format!("errors seen up to {}", maxseen.min(8)));
             drop(rx);
         }
